@@ -26,6 +26,8 @@ var programs, accepted, exprs, positions, symbols int
 
 type prog struct{ name, src string }
 
+var rejected []string
+
 // slots: %P = same-line prefix text (line context), %E = the expression.
 var slots = []struct{ name, tmpl string }{
 	{"string expression", "package p\n\ntempl T(x string) {\n\t<div>%P{ %E }</div>\n}\n"},
@@ -103,9 +105,11 @@ func checkProgram(p prog) {
 	programs++
 	raw, out, tf, err := tgen.GenerateRaw(p.src, "x.templ")
 	if err != nil {
+		rejected = append(rejected, p.name)
 		return
 	}
 	if _, _, _, err := tgen.Generate(p.src, "x.templ"); err != nil {
+		rejected = append(rejected, p.name)
 		return // gofmt rejects it
 	}
 	accepted++
@@ -385,6 +389,36 @@ func main() {
 			}
 		}
 	}
+	// two expressions that share a line: the generator does not write expressions in source order (class attributes
+	// before the element's other attributes, the children of a call before the call expression), so an expression
+	// on the closing line of a multi-line expression may have been mapped before or after it
+	attrKinds := []string{"title={ %s }", "class={ %s }", "style={ %s }", "disabled?={ %s }", "{ %s... }", "data-k={ %s }", "href={ %s }", "onclick={ %s }"}
+	var pairTmpls []struct{ name, tmpl string }
+	for _, k1 := range attrKinds {
+		for _, k2 := range attrKinds {
+			pairTmpls = append(pairTmpls, struct{ name, tmpl string }{"attributes " + k1 + " " + k2, "package p\n\ntempl T(x string) {\n\t<div " + fmt.Sprintf(k1, "%A") + " " + fmt.Sprintf(k2, "%B") + ">t</div>\n}\n"})
+		}
+		pairTmpls = append(pairTmpls, struct{ name, tmpl string }{"attribute " + k1 + " then child", "package p\n\ntempl T(x string) {\n\t<div " + fmt.Sprintf(k1, "%A") + ">{ %B }</div>\n}\n"})
+		pairTmpls = append(pairTmpls, struct{ name, tmpl string }{"attribute " + k1 + " inside conditional, then attribute", "package p\n\ntempl T(x string) {\n\t<div if %A {\n\t\t" + fmt.Sprintf(k1, "%A") + " } class={ %B } title={ %B }>t</div>\n}\n"})
+		pairTmpls = append(pairTmpls, struct{ name, tmpl string }{"script element attribute " + k1 + " then class", "package p\n\ntempl T(x string) {\n\t<script " + fmt.Sprintf(k1, "%A") + " class={ %B }>var a = {{ %B }};</script>\n}\n"})
+	}
+	pairTmpls = append(pairTmpls,
+		struct{ name, tmpl string }{"call with children on one line", "package p\n\ntempl c(s string) {\n\t<i>{ children... }</i>\n}\n\ntempl T(x string) {\n\t@c(%A) { <b>{ %B }</b> }\n}\n"},
+		struct{ name, tmpl string }{"call with children starting on the closing line", "package p\n\ntempl c(s string) {\n\t<i>{ children... }</i>\n}\n\ntempl T(x string) {\n\t@c(%A) { <b class={ %B }>{ %B }</b>\n\t\t{ %A }\n\t}\n}\n"},
+		struct{ name, tmpl string }{"if on one line", "package p\n\ntempl T(x string) {\n\tif %A { <b>{ %B }</b> }\n}\n"},
+		struct{ name, tmpl string }{"for on one line", "package p\n\ntempl T(x string) {\n\tfor _, v := range %A { <i class={ %B }>{ v }</i> }\n}\n"},
+		struct{ name, tmpl string }{"adjacent string expressions", "package p\n\ntempl T(x string) {\n\t{ %A }{ %B }<b>{ %A }</b>{ %B }\n}\n"},
+		struct{ name, tmpl string }{"raw go then expression", "package p\n\ntempl T(x string) {\n\t{{ v := %A }}{ %B }\n}\n"},
+		struct{ name, tmpl string }{"nested calls on one line", "package p\n\ntempl c(s string) {\n\t<i>{ children... }</i>\n}\n\ntempl T(x string) {\n\t@c(%A) { @c(%B) { { %A } } }\n}\n"},
+		struct{ name, tmpl string }{"css values", "package p\n\ncss c(x string) {\n\tcolor: { %A }; width: { %B };\n}\n"},
+	)
+	pairShapes := [][2]int{{1, 0}, {0, 1}, {1, 1}, {3, 2}, {1, 3}}
+	for _, pt := range pairTmpls {
+		for _, ps := range pairShapes {
+			src := strings.ReplaceAll(strings.ReplaceAll(pt.tmpl, "%A", shapes[ps[0]].expr), "%B", shapes[ps[1]].expr)
+			progs = append(progs, prog{fmt.Sprintf("pair %q, %s + %s", pt.name, shapes[ps[0]].name, shapes[ps[1]].name), src})
+		}
+	}
 	// long single writes of the generator (a static text literal, a top-level Go block) with a multi-byte character at
 	// every offset of a window around 4 KiB (and 8 KiB in thorough), followed by expressions: position tracking that
 	// works on chunks of a write has its boundary inside such a write
@@ -421,6 +455,10 @@ func main() {
 	run.Cov["programs"] = programs
 	run.Cov["corpus_programs"] = nCorpus
 	run.Cov["accepted_programs"] = accepted
+	if len(rejected) > 40 {
+		rejected = append(rejected[:40], fmt.Sprintf("... and %d more", len(rejected)-40))
+	}
+	run.Cov["rejected_programs"] = rejected
 	run.Cov["expressions"] = exprs
 	run.Cov["positions_looked_up"] = positions
 	run.Cov["symbol_ranges"] = symbols
